@@ -323,6 +323,17 @@ pub fn directive_file(rng: &mut Rng, o: &DirGenOpts) -> DirFile {
         let (ct, _) = code_list(rng, &mut feats);
         b.same(&format!("// {} {}{}", w, ct, nl));
       }
+    } else if r == 8 {
+      // a line directive naming an accounting rule directly above another line directive whose codes are unknown or
+      // unused: line-level accounting codes suppress nothing, in particular not the accounting of the next line
+      feats.push("stacked-accounting-dirs");
+      let acc = ACC_CODES[rng.below(ACC_CODES.len())];
+      let line = b.line();
+      b.lines.push((line, vec![acc.to_string()]));
+      b.push(&format!("// {} {}", o.line_word, acc), &format!("// {} {}", neutralise(o.line_word), acc));
+      b.same(nl);
+      b.line_dir(rng, o, &mut feats, "");
+      b.same(nl);
     } else if r == 7 {
       feats.push("trailing-dir-same-line");
       // a directive comment at the end of a statement line: counts for the *next* line only
